@@ -170,6 +170,10 @@ def check_dict(rep, entry):
             r = update_in(d, p, lambda x: 9)
             if r != expa:
                 bad.append(('update_in', d0, p, expa, r))
+            elif d != d0:
+                # (the result differs from its argument in the addressed subtree
+                #  only: the argument itself is as it was)
+                bad.append(('update_in modified its argument', d0, p, d0, d))
             if row['get'] == 'leaf':
                 # f is applied to the value that is there (also a falsy one)
                 d = copy.deepcopy(d0)
